@@ -52,7 +52,7 @@ def run(F, chk):
         sends = st.blocks_with('SEND')
         closures = st.blocks_with('W_CLOSURE')
         T1.fn(b.path); T2.fn(b.path); T3.fn(b.path)
-        T1.floor('outflow call sites', len(sends), 5)
+        T1.floor('outflow call sites', len(sends), 3)
         T1.floor('refresh sites', len(clean), 2)
         T1.floor('update sites', len(dirty), 2)
         T2.floor('un-buffering sites', len(removes), 3)
